@@ -271,6 +271,32 @@ theorem GenG.fresh (mod : String) (T : List String) (env : CEnv) (name : String)
         · exact Or.inr (Or.inl ((levelNames_filter_sublist T c _).mem hm))
       · exact Or.inr (Or.inr hm)
 
+/-- A declaration of any name (tracked or not). -/
+theorem GenG.freshAny (mod : String) (T : List String) (env : CEnv) (name : String)
+    (env' : CEnv) (hsc : env'.scopes = (freshVar mod env name).2.scopes)
+    (hnv : (freshVar mod env name).2.nv ≤ env'.nv) (code : SCode)
+    (hv : ∀ m ∈ codeVars code, m = (freshVar mod env name).1 ∨ m ∈ liveNames T env.scopes) :
+    GenG T env env' code := by
+  by_cases hxT : name ∈ T
+  · exact GenG.fresh mod T env name hxT env' hsc hnv code hv
+  · refine ⟨[(freshVar mod env name).1], ?_, ?_, ?_⟩
+    · have : (freshVar mod env name).2.nv = env.nv + 1 := rfl
+      simp only [List.length_singleton]; omega
+    · intro m hm
+      rcases hv m hm with h | h
+      · exact Or.inl (by simp [h])
+      · exact Or.inr h
+    · intro m hm
+      rw [hsc] at hm
+      refine Or.inr ?_
+      simp only [freshVar] at hm
+      cases hsc' : env.scopes with
+      | nil =>
+        simp [hsc', liveNames, levelNames, hxT] at hm
+      | cons c crest =>
+        simp only [hsc', liveNames, List.flatMap_cons, levelNames_ghost T c name _ hxT] at hm ⊢
+        exact hm
+
 theorem genG_stmt (mod fn : String) (φ : String → Option String) (T : List String) : ∀ (n : Nat),
     (∀ (loops : List (String × String)) (st : Stmt) (env : CEnv), Frag.depthGS st ≤ n →
       (∀ x ∈ Frag.identsGS st, x ∈ T) → Frag.wsGS mod fn φ loops st env = true →
@@ -299,7 +325,66 @@ theorem genG_stmt (mod fn : String) (φ : String → Option String) (T : List St
     refine ⟨?_, ?_, ?_⟩
     · intro loops st env hd hT hws
       cases st
-      case typedef | trigger | forS => exact GenG.nil T env
+      case typedef | trigger => exact GenG.nil T env
+      case forS sp name vty iter body =>
+        obtain ⟨bsp, bty, stmts, boe⟩ := body
+        cases iter <;> try exact GenG.nil T env
+        cases boe <;> try exact GenG.nil T env
+        rename_i rsp a b incl
+        simp only [Frag.depthGS] at hd
+        simp only [Frag.wsGS, Bool.and_eq_true] at hws
+        obtain ⟨⟨hwa, hwb⟩, hwS⟩ := hws
+        simp only [Frag.identsGS, List.mem_cons, List.mem_append] at hT
+        simp only [cgS]
+        generalize freshLabel mod env.lm "loop_head" = head at hwS ⊢
+        generalize freshLabel mod head.2 "loop_update" = upd at hwS ⊢
+        generalize freshLabel mod upd.2 "loop_end" = aft at hwS ⊢
+        have hliveA := hEl env a aft.2 (fun x hx => hT x (Or.inr (Or.inl hx)))
+        generalize cgE mod (ρS env.scopes) φ a aft.2 = CA at hwS hliveA ⊢
+        have hliveB := hEl env b CA.2 (fun x hx => hT x (Or.inr (Or.inr (Or.inl hx))))
+        generalize cgE mod (ρS env.scopes) φ b CA.2 = CB at hwS hliveB ⊢
+        have h1 : GenG T env { env with scopes := [] :: env.scopes, lm := CB.2 }
+            (CA.1 ++ CB.1 ++ [((Instr.intoRange incl : SInstr), rsp), (.clone, sp), (.intoIter, sp)]) :=
+          ⟨[], by simp, fun m hm => by
+              simp only [codeVars_append, List.mem_append] at hm
+              rcases hm with (hm | hm) | hm
+              · exact Or.inr (hliveA m hm)
+              · exact Or.inr (hliveB m hm)
+              · simp [codeVars, var?] at hm,
+            fun m hm => Or.inr (by simpa [liveNames, levelNames] using hm)⟩
+        have h2 : GenG T { env with scopes := [] :: env.scopes, lm := CB.2 }
+            (freshVar mod { env with scopes := [] :: env.scopes, lm := CB.2 } ("$iter_" ++ name)).2
+            [((Instr.setVar (freshVar mod { env with scopes := [] :: env.scopes, lm := CB.2 } ("$iter_" ++ name)).1 : SInstr), sp),
+              (.label head.1, sp),
+              (.getVar (freshVar mod { env with scopes := [] :: env.scopes, lm := CB.2 } ("$iter_" ++ name)).1, sp),
+              (.iterAdvance, sp)] :=
+          GenG.freshAny mod T _ ("$iter_" ++ name) _ rfl (Nat.le_refl _) _ (by
+            intro m hm
+            simp only [codeVars, List.filterMap_cons, var?, List.filterMap_nil, List.mem_cons, List.not_mem_nil,
+              or_false, or_self] at hm
+            exact Or.inl hm)
+        generalize freshVar mod { env with scopes := [] :: env.scopes, lm := CB.2 } ("$iter_" ++ name) = fit at hwS h2 ⊢
+        have h3 : GenG T fit.2 (freshVar mod fit.2 name).2
+            [((Instr.setVar (freshVar mod fit.2 name).1 : SInstr), sp), (.jumpIfFalse aft.1, sp)] :=
+          GenG.fresh mod T _ name (hT name (Or.inl rfl)) _ rfl (Nat.le_refl _) _ (by
+            intro m hm
+            simp only [codeVars, List.filterMap_cons, var?, List.filterMap_nil, List.mem_singleton] at hm
+            exact Or.inl hm)
+        generalize freshVar mod fit.2 name = fhv at hwS h3 ⊢
+        have h4 := ihSs ((aft.1, upd.1) :: loops) stmts fhv.2 (by omega)
+          (fun x hx => hT x (Or.inr (Or.inr (Or.inr hx)))) hwS
+        generalize cgSs mod fn φ ((aft.1, upd.1) :: loops) stmts fhv.2 = CS at h4 ⊢
+        have h5 : GenG T CS.2 { CS.2 with scopes := CS.2.scopes.tail }
+            [((Instr.label upd.1 : SInstr), sp), (.jump head.1, sp), (.label aft.1, sp)] := by
+          refine ⟨[], by simp, fun m hm => by simp [codeVars, var?] at hm, fun m hm => Or.inr ?_⟩
+          cases hsc : CS.2.scopes with
+          | nil => simp [hsc, liveNames] at hm
+          | cons c rest =>
+            simp only [hsc, List.tail_cons] at hm
+            simp only [liveNames, List.flatMap_cons, List.mem_append]
+            exact Or.inr hm
+        have hall := (((h1.trans h2).trans h3).trans h4).trans h5
+        simpa [List.append_assoc] using hall
       case letS sp name vty nc oty e =>
         cases nc
         · simp only [Frag.identsGS, List.mem_cons] at hT
